@@ -31,7 +31,30 @@ CONTAINS = "phi(False|has_event_set_as_subset(P:potential_merge_node." \
 HAS = ("truth", CONTAINS, "1")
 HASNOT = ("truth", CONTAINS, "0")
 
+EV_NODE = "Node(P:event.uid,event_type=P:event.event_type)"
+EV_SUB = "SubGraphNode(P:event.uid,P:event.event_type,P:event.start_uid," \
+         "P:event.end_uid,P:event.break_uids)"
+EV_ANY = f"phi({EV_NODE}|{EV_SUB})"
+IS_LOOP = ("truth", "isinstance(P:event,LoopEvent)", "1")
+
 TABLE: dict[str, list[tuple]] = {
+    # ---- Event -> Node: identity, type, loop references, merge flag
+    "create_node_from_event": [
+        ("the node keeps the event's uid and type; a loop node also the "
+         "uids of its body's dummy start / end / breaks", "ret", "", "",
+         (EV_ANY,), [], [], ""),
+        ("a loop event becomes a LOOP node", "call", "update_event_types",
+         EV_SUB, ("PUMLEvent.LOOP",), [IS_LOOP], [], ""),
+        ("incoming sets are the event's predecessor sets", "store", "",
+         f"{EV_ANY}.eventsets_incoming", ("P:event.in_event_sets",), [], [],
+         ""),
+        ("MERGE exactly when the gate inferred from the predecessor sets is "
+         "a BRANCH (repeated predecessor)", "call", "update_event_types",
+         EV_ANY, ("PUMLEvent.MERGE",),
+         [("truth", f"{EV_ANY}.eventsets_incoming", "1"),
+          ("cmp", "Logic_operator.BRANCH", "Eq", "calculate_logic_gates("
+           f"{EV_ANY}.eventsets_incoming).operator", "1")], [], ""),
+    ],
     # ---- gate tree -> node logic (one arm per kind of tree node, every
     # ---- child visited, leaves attached in the direction asked for)
     "Node._load_logic_into_logic_list": [
